@@ -182,6 +182,7 @@ structure CallData where
   callId : Bytes
   schema : Bytes
   streamId : Bytes
+  inputSchema : Bytes    -- InputSchemaIPC: what a dynamic exchange stream declared at /init ([] = none)
   deriving DecidableEq, Repr
 
 /-- The fields of a session-token plaintext the server reads (`created_at` and `expires_at` are
@@ -261,12 +262,18 @@ structure CacheEntry where
   exp : Int            -- ms
   schema : Bytes
   streamId : Bytes
+  inputSchema : Bytes
   deriving DecidableEq, Repr
 
+/-- `resolvedCall`. -/
 structure Resolved where
   schema : Bytes
   streamId : Bytes
+  inputSchema : Bytes
   deriving DecidableEq, Repr
+
+def CacheEntry.resolved (e : CacheEntry) : Resolved := ⟨e.schema, e.streamId, e.inputSchema⟩
+def CallData.resolved (d : CallData) : Resolved := ⟨d.schema, d.streamId, d.inputSchema⟩
 
 /-- `callID + "\x00" + callStateIdentity(auth)`. -/
 def cacheKey (callId : Bytes) (who : Ident) : Bytes := callId ++ 0 :: identKey who
@@ -282,7 +289,7 @@ def cacheGet (max : Int) (entries : List CacheEntry) (now : Int) (k : Bytes) :
   | none => (none, entries)
   | some e =>
     if now > e.exp then (none, entries.filter fun x => decide (x.key ≠ k))
-    else (some ⟨e.schema, e.streamId⟩, e :: entries.filter fun x => decide (x.key ≠ k))
+    else (some e.resolved, e :: entries.filter fun x => decide (x.key ≠ k))
 
 /-- `callStateCache.put` with the token's own expiry: the entry lives until
 `min(now + cacheTtl, tokenExpiry)`; over capacity the least recently used entries go. -/
@@ -290,7 +297,7 @@ def cachePut (max ttl : Int) (entries : List CacheEntry) (now : Int) (k : Bytes)
     (tokenExpiry : Int) : List CacheEntry :=
   if max ≤ 0 then entries else
   let exp := if tokenExpiry < now + cacheTtl ttl then tokenExpiry else now + cacheTtl ttl
-  (⟨k, exp, r.schema, r.streamId⟩ :: entries.filter fun x => decide (x.key ≠ k)).take max.toNat
+  (⟨k, exp, r.schema, r.streamId, r.inputSchema⟩ :: entries.filter fun x => decide (x.key ≠ k)).take max.toNat
 
 /-- `(*HttpServer).tokenExpiry`. -/
 def tokenExpiry (ttl created : Int) : Int := created * 1000 + ttl
@@ -304,6 +311,7 @@ structure MethodInfo where
   name : Bytes
   type : MType
   mints : SKind      -- the state kind this method's init handler returns (harness family)
+  input : Bytes := []  -- static exchange: registered input schema; dynamic: the input schema its /init declares ([] = none)
   deriving DecidableEq, Repr
 
 structure Inst where
@@ -338,7 +346,7 @@ def resolveCall (tbl : List SealRec) (inst : Inst) (now : Int) (cur : CursorData
         if tooOld now inst.ttl d.created then (c, .error .expired)
         else if d.callId ≠ cur.callId then (c, .error .malformed)
         else
-          let r : Resolved := ⟨d.schema, d.streamId⟩
+          let r : Resolved := d.resolved
           (cachePut inst.cacheMax inst.ttl c now (cacheKey cur.callId who) r
             (tokenExpiry inst.ttl d.created), .ok r)
       | .ok _ => (c, .error .malformed)
@@ -391,6 +399,7 @@ structure Req where
   cancel : Bool
   session : Option Bytes     -- VGI-Session header
   now : Int
+  input : Bytes := []        -- schema of the input batch that was sent
   deriving Repr
 
 inductive Ev
@@ -398,7 +407,7 @@ inductive Ev
   | hookStart (method streamId : Bytes)
   | hookEnd
   | produce
-  | exchange
+  | exchange (seen : Bytes)    -- the schema of the batch `Exchange` received
   | cancel
   deriving DecidableEq, Repr
 
@@ -425,6 +434,13 @@ def producerMode (t : MType) (k : SKind) : Bool :=
   | .dynamic => k = .producer || k = .both
   | t => t = .producer
 
+/-- What schema the exchange handler receives. Static methods cast to their registered input schema
+before the token is looked at; a dynamic exchange stream casts to the schema it declared at /init,
+which travels in the call token / cache entry (`resolvedCall.InputSchemaIPC`). -/
+def seenInput (mi : MethodInfo) (rc : Resolved) (sent : Bytes) : Bytes :=
+  let afterStatic := if mi.type ≠ .dynamic ∧ mi.input ≠ [] ∧ sent ≠ mi.input then mi.input else sent
+  if mi.type = .dynamic ∧ rc.inputSchema ≠ [] ∧ afterStatic ≠ rc.inputSchema then rc.inputSchema else afterStatic
+
 def preEvents (inst : Inst) (method : Bytes) (r : Resolved) : List Ev :=
   (if inst.rehydrate then [Ev.rehydrate method] else []) ++
   (if inst.hook then [Ev.hookStart method r.streamId] else [])
@@ -445,7 +461,7 @@ def dispatch (tbl : List SealRec) (inst : Inst) (req : Req) (mi : MethodInfo) (c
       ⟨200, false, none, preEvents inst req.method rc ++ [Ev.produce] ++ postEvents inst,
         if cur.count + 1 > cur.limit then none else some { cur with count := cur.count + 1 }⟩
     else
-      ⟨200, false, none, preEvents inst req.method rc ++ [Ev.exchange] ++ postEvents inst,
+      ⟨200, false, none, preEvents inst req.method rc ++ [Ev.exchange (seenInput mi rc req.input)] ++ postEvents inst,
         some { cur with count := cur.count + 1 }⟩
 
 /-- One continuation request against one instance. Order as in the Go handler: method lookup →
@@ -496,6 +512,6 @@ def initStream (tbl : List SealRec) (inst : Inst) (who : Ident) (method : Bytes)
         let count := if prod then 1 else 0
         if prod ∧ count > limit then ⟨200, false, none, none⟩
         else ⟨200, false, none,
-          some (⟨created, callId, method, mi.mints, count, limit⟩, ⟨callCreated, callId, schema, streamId⟩)⟩
+          some (⟨created, callId, method, mi.mints, count, limit⟩, ⟨callCreated, callId, schema, streamId, if mi.type = .dynamic then mi.input else []⟩)⟩
 
 end Vgi.Token
